@@ -337,6 +337,14 @@ structure Obs where
   processed : List Tok       -- tasks the reporter heard of
   started : List Tok         -- tasks in the order they were started (serial runner)
   ran : List Tok             -- tasks whose action ran
+  actionsOnly : Bool := false  -- the run used a reporter of doit's own (json, zero, ...): only the recording actions
+                               -- were observed, `processed` and `started` list the tasks whose action ran
+
+/-- does running the task show in its recording action? (group tasks have no action; a task declared up-to-date is skipped) -/
+def hasAction (ts : List Task) (n : Tok) : Bool :=
+  match find ts n with
+  | some t => !t.hasSubtask && !t.utd
+  | none => true
 
 def sameSet (a b : List Tok) : Bool := a.all (fun x => b.contains x) && b.all (fun x => a.contains x)
 
@@ -349,7 +357,8 @@ def monitor (ts : List Task) (args : List Tok) (dflt : Option (List Tok)) (singl
   | .ok p =>
     (if o.exit == 0 then [] else ["exit-code"]) ++
     (if o.processed.all (fun x => p.closure.contains x) then [] else ["processed-outside-closure"]) ++
-    (if p.closure.all (fun x => o.processed.contains x) then [] else ["closure-not-processed"]) ++
+    (if (if o.actionsOnly then p.closure.filter (hasAction p.tasks) else p.closure).all
+          (fun x => o.processed.contains x) then [] else ["closure-not-processed"]) ++
     (if (orderPairsBad p.tasks p.sel o.started).isEmpty then [] else ["order"])
 
 end DoitModel.Sel
